@@ -482,6 +482,13 @@ func (r *lrunner) step(o *lop) (out []ev, stop bool) {
 		r.store.Close()
 		r.store = nil
 		out = append(out, ev{"a": "Close", "l": 1})
+	case "kill":
+		// unclean stop: what was written is flushed (durable, C06), then the process state is simply gone - no
+		// tree dump, no hint dump.  The next open loads the LAST tree dump and replays everything written since.
+		vs.setProc("flusher")
+		r.store.flushdatas(true)
+		r.store = nil
+		out = append(out, ev{"a": "Close", "l": 1, "kill": true})
 	case "open":
 		if r.store != nil {
 			return []ev{{"a": "Skip", "l": 1, "op": o.Op}}, false
